@@ -65,6 +65,20 @@ def cases(ctx):
         rk = gen.rand_key(rng, n, unique_list=route in ('loc2', 'loc_r', 'sloc') and False)
         ck = gen.rand_key(rng, m)
         yield {'k': 'frame', 'spec': spec, 'route': route, 'rk': rk, 'ck': ck, 'n': n * m}
+    # label-specific forms: Boolean Series keys aligned by label, ILoc wrappers, absent labels, datetime periods
+    for i in range(500 if quick else 8000):
+        sub = rng.choice(['boolseries', 'iloc_wrap', 'absent', 'dt', 'dt', 'dt_slice'])
+        n = rng.randint(1, 6)
+        if sub in ('dt', 'dt_slice'):
+            days = sorted(rng.sample(range(0, 500), n))
+            if sub == 'dt' and rng.random() < 0.5:
+                rng.shuffle(days)
+            yield {'k': 'lab', 'sub': sub, 'days': days, 'r': rng.randint(0, 10 ** 6), 'n': n}
+        else:
+            kind = rng.choice(['auto', 'int', 'str', 'mixed', 'date'])
+            labels = gen.rand_labels(rng, n, kind)
+            yield {'k': 'lab', 'sub': sub, 'labels': labels, 'lkind': kind, 'r': rng.randint(0, 10 ** 6), 'n': n,
+                   'bits': [rng.randint(0, 1) for _ in range(n)], 'perm': rng.sample(range(n), n)}
 
 
 def model_lines(c):
@@ -75,6 +89,8 @@ def model_lines(c):
     if c['k'] == 'cols':
         l = '(' + ' '.join(str(x) for x in c['l']) + ')'
         return [f'slice.cols {l}', f'gen.cols {l}']
+    if c['k'] == 'lab':
+        return []
     if c['k'] == 'frame':
         spec = c['spec']
         return [f'key.positions {gen.key_to_wire(c["rk"])} {spec["rows"]}',
@@ -125,7 +141,157 @@ def evaluate(ctx, c, outs):
         if model_on and (outs[0] != r or outs[1] != r):
             fails.append(Failure('corr', f'_cols_to_slice {c["l"]}: model {outs[0]} gen {outs[1]} real {r}', c))
         return fails
+    if c['k'] == 'lab':
+        return eval_lab(ctx, c)
     return eval_frame(ctx, c, outs)
+
+
+def eval_lab(ctx, c):
+    """label-route specifics; reference = dict label -> position / explicit period arithmetic"""
+    import datetime
+    import static_frame as sf
+    fails = []
+    sub, r, n = c['sub'], c['r'], c['n']
+    ctx.count(f'lab_{sub}')
+
+    def bad(what):
+        fails.append(Failure('oracle', f'label route {sub}: {what}', c))
+
+    if sub in ('dt', 'dt_slice'):
+        base = np.datetime64('2020-01-15', 'D')
+        dates = [base + np.timedelta64(d, 'D') for d in c['days']]
+        ix = sf.IndexDate(dates)
+        s = sf.Series(list(range(n)), index=ix)
+        f = sf.Frame.from_items((('v', list(range(n))), ('w', [str(i) for i in range(n)])), index=ix)
+        pick = dates[r % n]
+        ym = str(pick)[:7]
+        yy = str(pick)[:4]
+        in_month = [i for i, d in enumerate(dates) if str(d)[:7] == ym]
+        in_year = [i for i, d in enumerate(dates) if str(d)[:4] == yy]
+        if sub == 'dt':
+            forms = [(ym, in_month), (np.datetime64(ym, 'M'), in_month), (yy, in_year), (np.datetime64(yy, 'Y'), in_year),
+                     (str(pick), None), (pick.astype(datetime.date), None), (pick, None)]
+            key, exp = forms[(r // 7) % len(forms)]
+            try:
+                got = s.loc[key]
+                fgot = f.loc[key]
+            except Exception as ex:
+                bad(f'key {key!r} raised {type(ex).__name__}: {ex}')
+                return fails
+            if exp is None:
+                if isinstance(got, sf.Series) or got != r % n:
+                    bad(f'full-resolution key {key!r} returned {got!r}, expected the element {r % n}')
+                if not isinstance(fgot, sf.Series) or fgot.values.tolist() != [r % n, str(r % n)]:
+                    bad(f'frame.loc[{key!r}] returned {fgot!r}')
+            else:
+                if not isinstance(got, sf.Series) or got.values.tolist() != exp or [str(x) for x in got.index] != [str(dates[i]) for i in exp]:
+                    bad(f'period key {key!r} selected {getattr(got, "values", got)!r}, expected positions {exp}')
+                if not isinstance(fgot, sf.Frame) or fgot['v'].values.tolist() != exp:
+                    bad(f'frame.loc[{key!r}] selected {fgot!r}, expected positions {exp}')
+            # an absent period is a lookup error, never data
+            try:
+                res = s.loc['1999-01']
+                if not (isinstance(res, sf.Series) and len(res) == 0):
+                    bad(f"absent month returned {res!r}")
+            except (KeyError, IndexError):
+                pass
+        else:
+            a, b = sorted([r % n, (r // 11) % n])
+            ka, kb = str(dates[a])[:7], str(dates[b])[:7]
+            exp = [i for i, d in enumerate(dates) if ka <= str(d)[:7] <= kb]
+            try:
+                got = s.loc[ka:kb]
+            except Exception as ex:
+                bad(f'slice {ka}:{kb} raised {type(ex).__name__}: {ex}')
+                return fails
+            if got.values.tolist() != exp:
+                bad(f'month slice {ka}:{kb} selected {got.values.tolist()}, expected {exp} (stop period inclusive)')
+            # full-resolution label slice includes its stop label
+            got2 = s.loc[dates[a]:dates[b]]
+            if got2.values.tolist() != list(range(a, b + 1)):
+                bad(f'date slice selected {got2.values.tolist()}, expected {list(range(a, b + 1))}')
+        return fails
+
+    labels = [untok(t) for t in c['labels']]
+    kind = c['lkind']
+    if kind == 'auto':
+        s = sf.Series([10 * i for i in range(n)])
+        f = sf.Frame.from_items((('v', [10 * i for i in range(n)]), ('w', [str(i) for i in range(n)])))
+    elif kind == 'date':
+        s = sf.Series([10 * i for i in range(n)], index=sf.IndexDate(labels))
+        f = sf.Frame.from_items((('v', [10 * i for i in range(n)]), ('w', [str(i) for i in range(n)])), index=sf.IndexDate(labels))
+    else:
+        s = sf.Series([10 * i for i in range(n)], index=labels)
+        f = sf.Frame.from_items((('v', [10 * i for i in range(n)]), ('w', [str(i) for i in range(n)])), index=labels)
+    labels = list(s.index)
+    if sub == 'boolseries':
+        perm = c['perm'][: max(1, n - (r % 2))]          # partial coverage: uncovered labels are False
+        key_labels = [labels[i] for i in perm]
+        bits = {tok(labels[i]): bool(c['bits'][i]) for i in perm}
+        key = sf.Series([bits[tok(l)] for l in key_labels], index=key_labels)
+        exp = [i for i, l in enumerate(labels) if bits.get(tok(l), False)]
+        try:
+            got = s.loc[key]
+            fgot = f.loc[key]
+        except Exception as ex:
+            bad(f'Boolean Series key raised {type(ex).__name__}: {ex}')
+            return fails
+        if got.values.tolist() != [10 * i for i in exp] or [tok(x) for x in got.index] != [tok(labels[i]) for i in exp]:
+            bad(f'Boolean Series key over {key_labels} selected {got.values.tolist()}, expected positions {exp} (alignment by label)')
+        if fgot['v'].values.tolist() != [10 * i for i in exp]:
+            bad(f'frame.loc[Boolean Series] selected {fgot["v"].values.tolist()}, expected positions {exp}')
+    elif sub == 'iloc_wrap':
+        keys = [r % n, -(r % n) - 1, slice(r % n, None), ([r % n, 0] if r % n else [0]), slice(None, None, -1)]
+        key = keys[(r // 5) % len(keys)]
+        try:
+            got = s.loc[sf.ILoc[key]]
+            exp = s.iloc[key]
+            g2 = f.loc[sf.ILoc[key], 'v']
+            e2 = f.iloc[key, 0]
+        except Exception as ex:
+            bad(f'ILoc[{key!r}] raised {type(ex).__name__}: {ex}')
+            return fails
+        same = (got.equals(exp) if isinstance(exp, sf.Series) else got == exp)
+        same2 = (g2.equals(e2, compare_name=True) if isinstance(e2, sf.Series) else g2 == e2)
+        ref = [10 * i for i in range(n)][key] if not isinstance(key, list) else [10 * (i % n) for i in key]
+        gv = got.values.tolist() if isinstance(got, sf.Series) else got
+        if not same or not same2 or gv != ref:
+            bad(f'loc[ILoc[{key!r}]] = {gv}, positional reference {ref}')
+    elif sub == 'absent':
+        absent = {'auto': [-1, n, n + 3, 'a', 2.5], 'int': [-99, 1000, 'a'], 'str': ['__absent__', 7, ''], 'mixed': ['__absent__', 77, 4.25],
+                  'date': [np.datetime64('1999-01-01'), '1999-01-01']}[kind]
+        a = absent[r % len(absent)]
+        if any(tok(a) == tok(l) or (not isinstance(a, str) and not isinstance(l, str) and l is not None and a == l) for l in labels):
+            return fails
+        for desc, fn in (('series.loc[absent]', lambda: s.loc[a]), ('series.loc[[present, absent]]', lambda: s.loc[[labels[0], a]]),
+                         ('frame.loc[absent]', lambda: f.loc[a]), ('frame.loc[absent, "v"]', lambda: f.loc[a, 'v']),
+                         ('label in index', lambda: a in s.index), ('frame[absent column]', lambda: f['__nocol__']),
+                         ('series.loc[absent:]', lambda: s.loc[a:])):
+            try:
+                res = fn()
+            except (KeyError, IndexError, TypeError, ValueError) as ex:
+                continue
+            except Exception as ex:
+                if err_cat(ex) == 'lookup' or type(ex).__name__ in ('LocInvalid', 'LocEmpty'):
+                    continue
+                bad(f'{desc} with {a!r} raised {type(ex).__name__} (not a lookup error): {ex}')
+                continue
+            except Exception as ex:
+                bad(f'{desc} with {a!r} raised {type(ex).__name__} (not a lookup error): {ex}')
+                continue
+            if desc == 'label in index':
+                if res:
+                    bad(f'{a!r} in index is True although the label is not held')
+            elif desc == 'series.loc[absent:]':
+                # an open slice from an absent label may legitimately be empty; it must not hold any data
+                if isinstance(res, sf.Series) and len(res) == 0:
+                    continue
+                if kind == 'date':
+                    continue
+                bad(f'{desc} with absent label {a!r} returned data {res.values.tolist() if hasattr(res, "values") else res!r}')
+            else:
+                bad(f'{desc} with absent label {a!r} returned {res!r} instead of raising a lookup error')
+    return fails
 
 
 def ref_positions(key, n):
